@@ -31,7 +31,7 @@ Definition goval_of_token (t : token) : goval :=
 Record oracles := mkOracles {
   o_float : bytes -> option (N * N);   (* strconv.ParseFloat(s, 64) = v, nil:  (Float64bits v, Float32bits (float32 v)) *)
   o_time : bytes -> option (Z * Z);    (* time.Parse(time.RFC3339, s) = t, nil: (t.Unix(), t.Nanosecond()) *)
-  o_decimal : bytes -> option bytes    (* decimal.NewFromString(s) = d, nil:    d.String() *)
+  o_decimal : bytes -> option (bytes * Z)   (* decimal.NewFromString(s) = d, nil:  (d.String(), d.Exponent()) *)
 }.
 
 (* ------------------------------------------------------------ integers *)
@@ -81,7 +81,14 @@ Definition parse_uint_bits (hi : Z) (s : bytes) : option Z :=
 Definition int_from_go (k : scalar_kind) (v : goval) : outcome (option pval) :=
   match v with
   | GNum lit =>
-    (* json.Number.Int64(), then the per-format switch on an int64 *)
+    (* UINT64: strconv.ParseUint(number, 10, 64); otherwise json.Number.Int64(),
+       then the per-format switch on the uint64 / int64 *)
+    if match k with KUint64 => true | _ => false end then
+      match parse_uint_bits max_u64 lit with
+      | Some z => Ok (Some (VInt z))
+      | None => Err "strconv.ParseUint"
+      end
+    else
     match parse_int_bits min_i64 max_i64 lit with
     | None => Err "json.Number.Int64"
     | Some z =>
@@ -208,16 +215,30 @@ Definition wrap_i32 (z : Z) : Z :=
   let m := (z mod 4294967296)%Z in
   if (m <? 2147483648)%Z then m else (m - 4294967296)%Z.
 
-(* date_j5t.DateFromString: three '-'-separated Atoi fields, no calendar check *)
+(* daysIn(year, month): proleptic Gregorian calendar *)
+Definition is_leap (y : Z) : bool :=
+  ((y mod 4 =? 0) && (negb (y mod 100 =? 0) || (y mod 400 =? 0)))%Z.
+Definition days_in (y m : Z) : Z :=
+  if ((m =? 4) || (m =? 6) || (m =? 9) || (m =? 11))%Z then 30%Z
+  else if (m =? 2)%Z then (if is_leap y then 29%Z else 28%Z)
+  else 31%Z.
+
+(* date_j5t.DateFromString: three '-'-separated Atoi fields; year 0..9999,
+   month 1..12, day 1..daysIn (so the int32 conversions never truncate) *)
 Definition date_from_string (s : bytes) : option (Z * Z * Z) :=
   match split_on 45 s [] with
   | [a; b; c] =>
     match atoi a, atoi b, atoi c with
-    | Some y, Some m, Some d => Some (wrap_i32 y, wrap_i32 m, wrap_i32 d)
+    | Some y, Some m, Some d =>
+      if ((y <? 0) || (9999 <? y) || (m <? 1) || (12 <? m) || (d <? 1) || (days_in y m <? d))%Z then None
+      else Some (wrap_i32 y, wrap_i32 m, wrap_i32 d)
     | _, _, _ => None
     end
   | _ => None
   end.
+
+(* decimalFromString: maxDecimalExponent *)
+Definition max_decimal_exponent : Z := 1000%Z.
 
 (* ------------------------------------------------------------ the switch *)
 (* Ok None is "an invalid protoreflect.Value with a nil error" *)
@@ -249,7 +270,13 @@ Definition scalar_from_go (orc : oracles) (k : scalar_kind) (v : goval) : outcom
     end
   | KDecimal =>
     match v with
-    | GStr s => match o_decimal orc s with Some d => Ok (Some (mk_decimal d)) | None => Err "decimal" end
+    | GStr s | GNum s =>
+      match o_decimal orc s with
+      | Some (d, ex) =>
+          if (max_decimal_exponent <? Z.abs ex)%Z then Err "decimal exponent out of range"
+          else Ok (Some (mk_decimal d))
+      | None => Err "decimal"
+      end
     | _ => Err "type: expected decimal"
     end
   | KDate =>
@@ -284,7 +311,7 @@ Definition model_value_arms : list (string * list string) := [
   ("Bool", ["bool"; "*bool"; "nil"; "default"]);
   ("Bytes", ["[]byte"; "string"; "*string"; "default"]);
   ("Date", ["*date_j5t.Date"; "string"; "*string"; "default"]);
-  ("Decimal", ["string"; "*string"; "*decimal_j5t.Decimal"; "*decimal.Decimal"; "decimal.Decimal"; "default"]);
+  ("Decimal", ["string"; "json.Number"; "*string"; "*decimal_j5t.Decimal"; "*decimal.Decimal"; "decimal.Decimal"; "default"]);
   ("Float", ["json.Number"; "string"]);
   ("Integer/FORMAT_INT32", int_arms);
   ("Integer/FORMAT_INT64", int_arms);
